@@ -8,12 +8,22 @@ import (
 	"strings"
 
 	"verif/harness/internal/core"
+	"verif/harness/internal/props/c01"
+	"verif/harness/internal/props/c02"
+	"verif/harness/internal/props/c13"
 	"verif/harness/internal/props/c15"
+	"verif/harness/internal/props/c18"
+	"verif/harness/internal/props/c20"
 	"verif/harness/internal/tlc"
 )
 
 var drivers = map[string]core.Driver{
+	"C01": c01.Driver{},
+	"C02": c02.Driver{},
+	"C13": c13.Driver{},
 	"C15": c15.Driver{},
+	"C18": c18.Driver{},
+	"C20": c20.Driver{},
 }
 
 func main() {
